@@ -158,7 +158,16 @@ def strategy(tier):
         "level": st.sampled_from(["segment", "segment", "top"]),
         "program": program_s,
     })
-    return st.one_of(direct, fromq, fromq)
+    # simple roots over the whole index (matchers that span segments), with an all_ids() somewhere in the program
+    term = st.builds(lambda x, b: {"op": "term", "f": "t", "x": x, "boost": b}, st.sampled_from(c05.VOC[:4]),
+                     st.sampled_from([1.0, 1.0, 2.0]))
+    simple = st.one_of(term, term, st.builds(lambda a, b: {"op": "and", "qs": [a, b], "boost": 1.0}, term, term),
+                       st.builds(lambda a, b: {"op": "andnot", "a": a, "b": b}, term, term))
+    multi = st.builds(lambda case, q, segs, prog, at: dict(case, query=q, segments=segs, level="top",
+                                                           program=prog[:at % (len(prog) + 1)] + [["all_ids"]] + prog[at % (len(prog) + 1):]),
+                      fromq, simple, st.lists(c05.docs_s(), min_size=2, max_size=3),
+                      st.lists(op_s.map(list), min_size=0, max_size=6), st.integers(0, 6))
+    return st.one_of(direct, fromq, fromq, multi)
 
 
 def close(a, b, tol=1e-9):
@@ -331,7 +340,38 @@ def run_program(make, program, out, tag, want_spans):
                 break
             pos = 0
         elif name == "all_ids":
-            continue
+            # all_ids() on the matcher itself (not on a copy): what it leaves behind is unspecified, but reset() must
+            # still return to the first entry and the whole list must be there again
+            if replaced:
+                continue
+            try:
+                got_ids = list(m.all_ids())
+            except Exception as e:
+                from wv.runner import _is_whoosh_frame
+                import traceback as _tb
+                if isinstance(e, mcore.ReadTooFar) and pos >= len(entries):
+                    got_ids = None
+                else:
+                    raise
+            if pos == 0 and got_ids is not None and got_ids != [e["id"] for e in entries]:
+                out.fail("c11.all_ids_differs_from_stepping", [tag, got_ids[:40], [e["id"] for e in entries][:40]])
+                return entries
+            try:
+                m.reset()
+                walked = []
+                while m.is_active() and len(walked) <= len(entries):
+                    walked.append(m.id())
+                    m.next()
+                m.reset()
+            except NotImplementedError:
+                out.exclude("reset_not_implemented")
+                break
+            out.label("all_ids_then_reset_on_the_matcher_itself:" + tag.rstrip("0123456789"))
+            if walked != [e["id"] for e in entries]:
+                out.fail("c11.reset_after_all_ids_does_not_return_to_start",
+                         {"tag": tag, "walked": walked[:40], "expected": [e["id"] for e in entries][:40]})
+                return entries
+            pos = 0
         if not check(name):
             return entries
     # copies must be unaffected by later operations on the original
